@@ -89,6 +89,14 @@ check("C09", "model_checking",
       "Serial layout; fault-free outcomes (failure counters are deliberately not checkpointed). " + _OPT_NOTE,
       "TLA+ twin-run spec model-checked by TLC + real save/load replay (bitwise) + spec-as-oracle load-outcome table", "DESIGN.md §5 C09")
 
+check("C18", "translation_validation",
+      "Translation validation of the compiled step: every TLC-simulated behaviour of ShampooOpt (phase switch, refresh steps, mask changes "
+      "that force recompilation, tolerated failures, hyper changes) is executed by the eager optimizer and by optimizers compiled with the "
+      "eager / aot_eager backends in static, dynamic and auto-dynamic mode; all parameters and state tensors must be bitwise equal after "
+      "every step, a run only counts if dynamo reports compiled frames, and the compiled run's trace is validated by TLC against the spec.",
+      "CPU only; inductor / CUDA not exercised. Behaviours are sampled (seeded TLC simulation); edge classes covered are listed in the evidence.",
+      "TLC-generated behaviours + eager-vs-compiled bitwise comparison + TLC trace validation of the compiled run", "DESIGN.md §5 C18")
+
 ALL = [f"C{i:02d}" for i in range(1, 19)]
 
 
